@@ -1094,5 +1094,5 @@ def rule_overwrite(ctx):
 
 
 def rules(tier):
-    from . import c13
-    return [rule_forms, rule_shape, rule_rowlocal, rule_noint, rule_composite, rule_overwrite, c13.rule_decision]
+    from . import c13, bitorder
+    return [bitorder.make_rule("R-C03-bitorder", {"linfa"}, 1, "the linfa crate (the probabilities the composed models select by)"), rule_forms, rule_shape, rule_rowlocal, rule_noint, rule_composite, rule_overwrite, c13.rule_decision]
